@@ -285,6 +285,9 @@ var namesForms = []func(b, B string) string{
 	func(b, B string) string { return "X" + B },
 	func(b, B string) string { return b + "_1" },
 	func(b, B string) string { return B + "1" },
+	func(b, B string) string { return "x_" + b + "_2" },
+	func(b, B string) string { return "X" + B + "_3" },
+	func(b, B string) string { return "_" + b + "_1" },
 }
 var namesSpecial = []string{
 	"reset", "Reset", "string", "String", "proto_message", "ProtoMessage", "descriptor", "Descriptor", "marshal", "Marshal",
@@ -402,11 +405,104 @@ func namesRandMsg(c *Ctx) *namesMsg {
 	return m
 }
 
+// namesOpaque: the same message under default_api_level=API_OPAQUE.  Methods of the
+// message type (accessors by Field.MethodName / Oneof.MethodName, base methods) and the
+// fields of the builder struct must be pairwise distinct.  P lines only (the opaque
+// resolver, protogen_opaque.go, is not modelled in Coq).
+func namesOpaque(c *Ctx, m *namesMsg) {
+	gen, err := protogen.Options{}.New(namesBuildRequest(m, "default_api_level=API_OPAQUE"))
+	if err != nil {
+		return
+	}
+	pm := gen.Files[0].Messages[0]
+	roles := map[string][]string{}
+	add := func(name, role string) {
+		if name != "" {
+			roles[name] = append(roles[name], role)
+		}
+	}
+	for _, b := range []string{"Reset", "String", "ProtoMessage", "ProtoReflect"} {
+		add(b, "method:"+b)
+	}
+	broles := map[string][]string{"Build": {"method:Build"}}
+	suffixed := map[string]bool{} // fields renamed by resolveCamelCaseConflicts
+	for _, f := range pm.Fields {
+		ms := []string{"Get", "Set"}
+		if f.Desc.HasPresence() {
+			ms = append(ms, "Has", "Clear")
+		}
+		for _, meth := range ms {
+			n, compat := f.MethodName(meth)
+			add(n, meth+":"+string(f.Desc.Name()))
+			add(compat, meth+"compat:"+string(f.Desc.Name()))
+		}
+		bn := f.BuilderFieldName()
+		broles[bn] = append(broles[bn], "builder:"+string(f.Desc.Name()))
+		if strings.HasSuffix(bn, fmt.Sprintf("_%d", f.Desc.Number())) && bn != strs.GoCamelCase(string(f.Desc.Name())) {
+			suffixed[string(f.Desc.Name())] = true
+			if f.Oneof != nil {
+				suffixed[string(f.Oneof.Desc.Name())] = true // resolveCamelCaseConflict suffixes the oneof as well
+			}
+		}
+	}
+	for _, o := range pm.Oneofs {
+		if o.Desc.IsSynthetic() {
+			continue
+		}
+		for _, meth := range []string{"Has", "Clear", "Which"} {
+			add(o.MethodName(meth), "oneof"+meth+":"+string(o.Desc.Name()))
+		}
+	}
+	report := func(kind string, rl map[string][]string) {
+		for _, d := range namesDups(rl) {
+			r := strings.Join(rl[d], "+")
+			f18 := false
+			for _, x := range rl[d] {
+				if i := strings.Index(x, ":"); i >= 0 && suffixed[x[i+1:]] {
+					f18 = true
+				}
+			}
+			// F19: a oneof and another oneof or field with the same camel-cased name
+			// (only field/field collisions get a _<number> suffix)
+			f19, hasOneof, camel := true, false, ""
+			for _, x := range rl[d] {
+				i := strings.Index(x, ":")
+				if i < 0 || strings.HasPrefix(x, "method:") {
+					f19 = false
+					break
+				}
+				if strings.HasPrefix(x, "oneof") {
+					hasOneof = true
+				}
+				cc := strs.GoCamelCase(x[i+1:])
+				if camel != "" && cc != camel {
+					f19 = false
+				}
+				camel = cc
+			}
+			if f19 && hasOneof && !f18 {
+				c.Stat("opaque_dup_F19")
+				c.Known("F19", "C42", "opaque API: a oneof and another oneof or field have the same camel-cased name: "+d+" ("+r+")")
+				continue
+			}
+			if f18 {
+				c.Stat("opaque_dup_F18")
+				c.Known("F18", "C42", "opaque API: the _<number> suffix of resolveCamelCaseConflicts collides with another field: "+d+" ("+r+")")
+			} else {
+				c.PropFail("C42", "opaque API: duplicate "+kind+" "+d+" ("+r+")", m.String())
+			}
+		}
+	}
+	report("method", roles)
+	report("builder field", broles)
+	c.Stat("opaque_checked")
+}
+
 func namesMk(fields []string, oneofOf []int, oneofs []string) *namesMsg {
 	return &namesMsg{fields: fields, oneofOf: oneofOf, oneofs: oneofs, synth: make([]bool, len(oneofs))}
 }
 
-func namesUnique(c *Ctx) {
+func namesUniqueCorpus(c *Ctx) {
 	corpus := []*namesMsg{
 		// F12: struct field GetY and the oneof getter GetY()
 		namesMk([]string{"get_y", "a"}, []int{-1, 0}, []string{"y"}),
@@ -426,13 +522,25 @@ func namesUnique(c *Ctx) {
 		{fields: []string{"foo", "foo_"}, oneofOf: []int{0, 0}, oneofs: []string{"o"}, synth: []bool{false}, nested: []string{"Foo"}},
 		{fields: []string{"foo"}, oneofOf: []int{0}, oneofs: []string{"o"}, synth: []bool{false}, enums: []string{"E"}, values: [][]string{{"Foo"}}},
 	}
+	corpus = append(corpus,
+		// F18: _foo and X_foo get the suffixes _1 and _2; x_foo_2 is XFoo_2 already
+		namesMk([]string{"_foo", "X_foo", "x_foo_2"}, []int{-1, -1, -1}, nil),
+		namesMk([]string{"_foo", "X_foo", "XFoo"}, []int{-1, -1, -1}, nil),
+		namesMk([]string{"build", "Build", "build_"}, []int{-1, -1, -1}, nil),
+		namesMk([]string{"foo", "set_foo", "has_foo", "clear_foo", "get_foo", "a", "which_o", "has_o", "clear_o"}, []int{-1, -1, -1, -1, -1, 0, -1, -1, -1}, []string{"o"}))
 	for _, m := range corpus {
 		if !namesRunMessage(c, m) {
 			c.PropFail("C42", "corpus message rejected by protogen", m.String())
 		}
+		namesOpaque(c, m)
 	}
-	n := c.N / 8
+}
+
+func namesUniqueRandom(c *Ctx, n int) {
 	for i := 0; i < n; i++ {
-		namesRunMessage(c, namesRandMsg(c))
+		m := namesRandMsg(c)
+		if namesRunMessage(c, m) {
+			namesOpaque(c, m)
+		}
 	}
 }
